@@ -48,4 +48,4 @@ export -f run_one
 printf '%s\n' "${names[@]}" | xargs -P "$JOBS" -I{} bash -c "run_one {} $TIER"
 jq -s 'sort_by(.name)' $(for n in "${names[@]}"; do echo /tmp/seeded-results/$n.json; done) > /tmp/seeded-results/ALL.json
 if [ $# -eq 0 ]; then cp /tmp/seeded-results/ALL.json seeded/RESULTS.$TIER.json; fi
-jq -r '.[] | [.name, .property, (if .applies then (.runs | map(.check + ":" + (if .detected then "DETECTED" else "missed(rc=" + (.exit|tostring) + ")" end)) | join(" ")) else "PATCH-DOES-NOT-APPLY" end)] | @tsv' /tmp/seeded-results/ALL.json | column -t
+jq -r '.[] | [.name, .property, (if .applies then (.runs | map(.check + ":" + (if .detected then "DETECTED" else "missed(rc=" + (.exit|tostring) + ")" end)) | join(" ")) else "PATCH-DOES-NOT-APPLY" end)] | @tsv' /tmp/seeded-results/ALL.json
